@@ -235,6 +235,24 @@ func respCells(tier string) []cells.Cell {
 		s.Paths = []*spec.PathItem{{Template: "/p", Ops: []*spec.Op{{Method: "GET", Responses: []*spec.Response{{Status: "200", Desc: "r", ContentType: "application/octet-stream", Schema: spec.TF("string", "binary"), Headers: []*spec.Header{{Name: "X-Len", Required: true, Schema: spec.TF("integer", "int32")}}},
 			{Status: "404", Desc: "r", Schema: obj()}, {Status: "default", Desc: "d", ContentType: "text/plain", Schema: spec.T("string")}}}}}}
 	})
+	// goag's private time-layout extension on JSON body properties: a lossless layout that is not RFC 3339
+	// (space for "T"), so a server and a client that disagree about which layout applies cannot round-trip.
+	// Own family and C10 only: the other response checks inject RFC 3339 answers, which this layout rejects
+	// by the user's choice, not by a defect of goag.
+	{
+		s := &spec.Spec{}
+		lay := func() *spec.Schema {
+			t := spec.TF("string", "date-time")
+			t.Ext = map[string]any{"x-goag-go-time-format": `"2006-01-02 15:04:05.999999999Z07:00"`}
+			return t
+		}
+		s.Comp.Schemas = []spec.NamedSchema{{Name: "Stamp", Schema: spec.Obj(spec.P("at", lay()), spec.P("opt", lay()), spec.P("plain", spec.TF("string", "date-time"))).Req("at")}}
+		s.Paths = []*spec.PathItem{{Template: "/p", Ops: []*spec.Op{{Method: "GET", Responses: []*spec.Response{
+			{Status: "200", Desc: "r", Schema: spec.Obj(spec.P("at", lay()), spec.P("n", spec.TF("integer", "int32"))).Req("at")},
+			{Status: "404", Desc: "r", Schema: spec.RefTo("Stamp")},
+			{Status: "default", Desc: "d", Schema: spec.Arr(spec.RefTo("Stamp"))}}}}}}
+		out = append(out, cells.NewCell("resplayout", map[string]string{"shape": "body-time-layout", "only": "C10"}, s))
+	}
 	return out
 }
 
